@@ -963,6 +963,22 @@ func ruleCount(c *Ctx) {
 			}
 			c.check(okb, fnName(f), "counter "+name+" counts live keys only", c.P.ipos(incs[0]),
 				"every increment is dominated by the tombstone and expiry tests", "a counter that is compared with the offset/limit argument is incremented for every index record, deleted and expired ones included: tombstones consume offset and limit, so a page can come back empty while live keys remain")
+			// the counter stands for "keys examined so far": it moves by exactly one per key. A bulk advance (coff += n.KeysNum
+			// to skip a whole leaf) counts keys that were never tested - keys before the prefix in the first leaf, tombstones -
+			// so the page starts at the wrong key.
+			for _, p := range phis {
+				if find(p) != fid {
+					continue
+				}
+				for _, e := range p.Edges {
+					if b, ok := e.(*ssa.BinOp); ok && (b.Op == token.ADD || b.Op == token.SUB) && member[b.X] {
+						if one, ok := constInt(b.Y); !(ok && one == 1 && b.Op == token.ADD) {
+							c.bad(fnName(f), "counter "+name+" advances by exactly one per examined key", c.P.ipos(b),
+								"a counter that is compared with the offset/limit argument is advanced by "+shortInstr(b)+" instead of by one per key that was examined: keys that were never tested against the prefix (or for liveness) are counted as skipped, so a page starts too early or too late")
+						}
+					}
+				}
+			}
 		}
 		// limits applied to the length of a filtered slice
 		for _, i := range ifsOf(f) {
